@@ -157,7 +157,10 @@ def run(db, chk) -> None:
            to_term(b.get("consecutive_kernel_delay")) == T.P("consecutive_kernel_delay") and b.get("show_idle_interval_stats") is False, m.loc(node),
            found={k: T.show(to_term(v))[:80] for k, v in b.items() if k != "gpu_kernels"}, accepted="consecutive_kernel_delay, show_idle_interval_stats")
     if not isinstance(gk, Frame) or gk.base[0] != "join":
-        chk.ob("C06.R1-launch-join", "kernels joined with their launch call", None if not isinstance(gk, Frame) else False, where2, found=repr(gk)[:200],
+        # the launch time may reach the kernels some other way (a positional gather, a map through a dict): without a join the slots below cannot be read - not understood.
+        # Only a kernel frame that carries NO launch time at all is a finding.
+        has_rt = isinstance(gk, Frame) and gk.has("ts_runtime") is not False
+        chk.ob("C06.R1-launch-join", "kernels joined with their launch call", None if (not isinstance(gk, Frame) or has_rt) else False, where2, found=repr(gk)[:200],
                accepted="left join of the kernels with the trace frame's ts")
         return
     _, how, Lctx, Rctx, lk, rk, sfx = gk.base
